@@ -428,7 +428,11 @@ func (c *Ctx) callFunction(fn *ssa.Function, args []Value, bind []Value, st *Sta
 	return c.execBody(fn, args, bind, st)
 }
 
+// inContractFor: inside the contract of F (proving it, or using it) calls to F go to the real code.
 func (c *Ctx) inContractFor(fn *ssa.Function) bool {
+	if cf := c.topContract(); cf != nil && cf.real == fn {
+		return true
+	}
 	for _, cf := range c.curContract {
 		if cf.real == fn && cf.prove {
 			return true
